@@ -147,6 +147,60 @@ class Rejected(Exception):
     pass
 
 
+def dec(x):
+    """decode object markers of a case: registered-type values given as Python OBJECTS (not as text), so that the
+    re-parsed value is compared with the original object and not with what the type's own reader made of a text"""
+    if isinstance(x, dict):
+        if len(x) == 1:
+            (k, v), = x.items()
+            if k == "$timedelta":
+                import datetime
+
+                return datetime.timedelta(days=v[0], seconds=v[1], microseconds=v[2])
+            if k == "$range":
+                return range(*v)
+            if k == "$bytes":
+                return bytes.fromhex(v)
+            if k == "$bytearray":
+                return bytearray.fromhex(v)
+            if k == "$complex":
+                return complex(v[0], v[1])
+            if k == "$uuid":
+                import uuid
+
+                return uuid.UUID(v)
+            if k == "$path":
+                import pathlib
+
+                return pathlib.Path(v)
+            if k == "$decimal":
+                import decimal
+
+                return decimal.Decimal(v)
+        return {k: dec(v) for k, v in x.items()}
+    if isinstance(x, list):
+        return [dec(v) for v in x]
+    return x
+
+
+def has_marker(x):
+    return '{"$' in json.dumps(x, default=repr)
+
+
+# registered-type values as objects (markers); sub-second / negative sub-second timedeltas, stepped ranges, …
+REGISTERED_OBJECTS = {
+    "timedelta": [{"$timedelta": [0, 1, 500000]}, {"$timedelta": [0, 0, 1]}, {"$timedelta": [-1, 86399, 500000]}, {"$timedelta": [2, 3, 250000]},
+                  {"$timedelta": [0, 59, 999999]}, {"$timedelta": [-3, 0, 0]}, {"$timedelta": [0, 3600, 0]}, {"$timedelta": [400, 45000, 125]}],
+    "range": [{"$range": [0, 10, 2]}, {"$range": [10, 0, -3]}, {"$range": [5]}, {"$range": [2, 8]}, {"$range": [0, 0]}, {"$range": [0, -5, -1]}],
+    "bytes": [{"$bytes": ""}, {"$bytes": "00"}, {"$bytes": "68656c6c6f"}, {"$bytes": "ffef"}, {"$bytes": "316533"}],
+    "bytearray": [{"$bytearray": ""}, {"$bytearray": "00ff"}, {"$bytearray": "6f6e"}],
+    "uuid": [{"$uuid": "12345678-1234-5678-1234-567812345678"}, {"$uuid": "00000000-0000-0000-0000-000000000000"}],
+    "complex": [{"$complex": [1.0, 2.0]}, {"$complex": [0.0, 1.0]}, {"$complex": [-0.5, -1.5]}, {"$complex": [0.0, 1e22]}, {"$complex": [1e-07, 0.0]}],
+    "path": [{"$path": "a/b.txt"}, {"$path": "1e3"}, {"$path": "null"}, {"$path": "a b/c"}, {"$path": "."}],
+    "decimal": [{"$decimal": "0.5"}, {"$decimal": "-7.75"}, {"$decimal": "1024"}, {"$decimal": "2.25"}],
+}
+
+
 def norm_value(t, plain):
     """normal form of a plain value for type t (what the parser itself produces)"""
     from jsonargparse import ArgumentError, ArgumentParser
@@ -154,7 +208,7 @@ def norm_value(t, plain):
     p = ArgumentParser(exit_on_error=False)
     p.add_argument("--v", type=mk_type(t))
     try:
-        return p.parse_object({"v": copy.deepcopy(plain)}).v
+        return p.parse_object({"v": dec(copy.deepcopy(plain))}).v
     except ArgumentError as ex:
         raise Rejected(str(ex)[:200]) from ex
 
@@ -315,6 +369,8 @@ def run_variant(p, cfg0, ref, variant, case, tmpdir):
             except ArgumentError as ex:
                 return {"stage": "reparse", "error": excname(ex), "detail": str(ex)[:300], "text": text[:600]}
         elif kind == "print_config":
+            if has_marker(case["obj"]):
+                raise Skip("object-valued input has no command-line spelling")
             argv = to_argv(case["spec"], case["obj"])
             try:
                 again = p.parse_args(argv)
@@ -401,7 +457,7 @@ def run_case(case, variants):
         res.reject_reason = "default rejected: " + str(ex)
         return res
     try:
-        cfg0 = contextvars.copy_context().run(p.parse_object, nest(copy.deepcopy(case["obj"])))
+        cfg0 = contextvars.copy_context().run(p.parse_object, dec(nest(copy.deepcopy(case["obj"]))))
     except ArgumentError as ex:
         res.reject_reason = str(ex)[:200]
         return res
@@ -559,6 +615,48 @@ def _accepts_text(t, text):
     return False
 
 
+def _ser_accepts(t, v):
+    """would the SERIALISING branch of adapt_typehints for type t take v without raising?  (Enum / restricted /
+    registered branches accept anything; a leaf int/float/bool branch yaml-loads a str first; Dict[int, …] casts keys
+    with str(); List takes any non-str iterable)"""
+    k = t["t"]
+    if k in ("enum", "restricted", "registered"):
+        return True
+    if k == "str":
+        return isinstance(v, str)
+    if k in ("int", "float", "bool"):
+        x = v
+        if isinstance(v, str):
+            try:
+                from jsonargparse._loaders_dumpers import yaml_load
+
+                x = yaml_load(v)
+            except Exception:  # noqa: BLE001
+                return False
+        if k == "bool":
+            return isinstance(x, bool)
+        if isinstance(x, bool):
+            return False
+        return isinstance(x, int) or (k == "float" and isinstance(x, float))
+    if k == "literal":
+        return any(v == x for x in t["vals"])
+    if k == "opt":
+        return v is None or _ser_accepts(t["a"], v)
+    if k == "union":
+        return any(_ser_accepts(x, v) for x in t["a"])
+    if k == "list":
+        return not isinstance(v, (str, dict)) and hasattr(v, "__iter__") and all(_ser_accepts(t["a"], x) for x in v)
+    if k == "dict":
+        return isinstance(v, dict) and all(_ser_accepts(t["v"], x) for x in v.values())
+    if k == "tuple":
+        return isinstance(v, (list, tuple, set)) and len(v) == len(t["a"]) and all(_ser_accepts(tt, x) for tt, x in zip(t["a"], v))
+    if k in ("vtuple", "set"):
+        return isinstance(v, (list, tuple, set)) and all(_ser_accepts(t["a"], x) for x in v)
+    if k == "dataclass":
+        return isinstance(v, dict) or hasattr(v, "__dict__")
+    return False
+
+
 def _flatten_union(t):
     out = []
     for m in t["a"]:
@@ -588,7 +686,7 @@ def _union_family(t, v, nested=False):
         flat = len(members) != len(t["a"])
         before = members[:owner] if not (nested or flat) else [m for i, m in enumerate(members) if i != owner]
         for m in before:
-            if _total(m):
+            if _total(m) or _ser_accepts(m, v):
                 return True
             if m["t"] == "list" and isinstance(v, (bytes, bytearray, range)):
                 return True   # the sequence branch serialises any non-list iterable with list(): bytes -> [0, ...], range -> [0, 1, ...]
@@ -753,7 +851,7 @@ def classify(case, variant):
     the failure) case matches, else None"""
     try:
         p = build_parser(case["spec"])
-        cfg0 = p.parse_object(nest(copy.deepcopy(case["obj"])))
+        cfg0 = p.parse_object(dec(nest(copy.deepcopy(case["obj"]))))
     except Exception:  # noqa: BLE001
         return None
     ids = set()
@@ -781,6 +879,8 @@ def fails(case, variant):
 def _shrink_value(t, v):
     """smaller candidates for a plain value"""
     out = []
+    if isinstance(v, dict) and len(v) == 1 and next(iter(v)).startswith("$"):
+        return out            # object marker: atomic
     if isinstance(v, list):
         for i in range(len(v)):
             out.append(v[:i] + v[i + 1:])
@@ -1126,6 +1226,8 @@ def gen_value(t, rng, sg, prof, depth=0):
     if k == "restricted":
         return rng.choice(RESTRICTED_VALUES[t["name"]])
     if k == "registered":
+        if rng.random() < prof.get("p_object", 0.35):
+            return copy.deepcopy(rng.choice(REGISTERED_OBJECTS[t["name"]]))
         vals = REGISTERED_VALUES[t["name"]]
         if prof.get("decimal_inexact", False) and t["name"] in REGISTERED_VALUES_WIDE and rng.random() < 0.4:
             vals = REGISTERED_VALUES_WIDE[t["name"]]
